@@ -9,6 +9,8 @@ CONSTANTS
   CopyUnderLock = TRUE
   KeyRecheck = TRUE
   ReleaseLocks = TRUE
+  NxAtomic = TRUE
 INVARIANTS TypeOK Inv_C07_HitOwnValue Inv_TableKey Inv_PoolBlank Inv_BufOnce Inv_CopySource
 SYMMETRY Sym
+PROPERTIES NxNeverDisplaces
 CHECK_DEADLOCK FALSE
